@@ -300,6 +300,39 @@ func sqlTemplates(f *Func, e ast.Expr, depth int) []string {
 		if root.Body == nil {
 			return []string{"§"}
 		}
+		// range value variable over a literal list of constant strings:
+		// for _, q := range []string{"CREATE INDEX …", …} { db.Exec(q) }
+		var fromRange []string
+		ast.Inspect(root.Body, func(n ast.Node) bool {
+			rs, ok := n.(*ast.RangeStmt)
+			if !ok || rs.Value == nil || ObjOf(f.Info(), rs.Value) != obj {
+				return true
+			}
+			if cl, ok := ast.Unparen(rs.X).(*ast.CompositeLit); ok {
+				for _, el := range cl.Elts {
+					if kv, ok := el.(*ast.KeyValueExpr); ok {
+						el = kv.Value
+					}
+					fromRange = append(fromRange, sqlTemplates(f, el, depth+1)...)
+				}
+			} else if lo := ObjOf(f.Info(), rs.X); lo != nil {
+				// … or over a local assigned such a literal once
+				ast.Inspect(root.Body, func(x ast.Node) bool {
+					if as, ok := x.(*ast.AssignStmt); ok && len(as.Lhs) == 1 && len(as.Rhs) == 1 && ObjOf(f.Info(), as.Lhs[0]) == lo {
+						if cl, ok := ast.Unparen(as.Rhs[0]).(*ast.CompositeLit); ok {
+							for _, el := range cl.Elts {
+								fromRange = append(fromRange, sqlTemplates(f, el, depth+1)...)
+							}
+						}
+					}
+					return true
+				})
+			}
+			return true
+		})
+		if len(fromRange) > 0 {
+			return fromRange
+		}
 		ast.Inspect(root.Body, func(n ast.Node) bool {
 			as, ok := n.(*ast.AssignStmt)
 			if !ok {
